@@ -26,3 +26,18 @@ Theorem C07_continuation_at_most_once : forall ops,
   NoDup (obs_ids (concat (snd (run init ops)))) /\ incl (obs_ids (concat (snd (run init ops)))) (all_ids ops).
 Proof. exact continuation_at_most_once. Qed.
 Print Assumptions C07_continuation_at_most_once.
+
+(* An access answer that reaches a subscription which is not disposed runs every continuation that was waiting. *)
+Theorem C07_answer_runs_all_waiting : forall s a,
+  st s <> Disposed -> 0 < outst s ->
+  obs_ids (snd (step s (OpAnswer a))) = cont_ids (acbs s) /\ cont_ids (acbs (fst (step s (OpAnswer a)))) = [].
+Proof. exact answer_runs_all_waiting. Qed.
+Print Assumptions C07_answer_runs_all_waiting.
+
+(* "Every registered continuation eventually runs" is false of the unchanged code (recorded finding KF-PENDING-DROPPED):
+   witness get; unsubscribe; answer - the get is never answered. Model and code agree on the witness (`subfsm` stage). *)
+Theorem C07_every_continuation_runs_refuted :
+  exists ops, NoDup (all_ids ops) /\ all_ids ops = [1] /\
+    let '(s, o) := run init ops in obs_ids (concat o) = [] /\ outst s = 0 /\ cont_ids (acbs s) = [1].
+Proof. exact every_continuation_runs_refuted. Qed.
+Print Assumptions C07_every_continuation_runs_refuted.
